@@ -157,18 +157,41 @@ def fromStrNative (W : Nat) (B : Nat) (src : List Nat) : Except ParseError (FRep
 /-- digits and `_` only, at least one digit somewhere is checked by the caller -/
 def digitsOnly (radix : Nat) (s : List Nat) : Option (List Nat) := digitValues radix (s.filter (· ≠ 95))
 
+/-- a digit string of the grammar: digits of `radix` and `_` separators with at least one digit; the
+    empty string only where the grammar allows the part to be omitted -/
+def chkDigits (radix : Nat) (s : List Nat) (allowEmpty : Bool) : Except ParseError (List Nat) :=
+  if s = [] then (if allowEmpty then .ok [] else .error .noDigits)
+  else if s.all (· == 95) then .error .noDigits
+  else match digitsOnly radix s with
+    | some ds => .ok ds
+    | none => .error .invalidDigit
+
+/-- the two parts of the body: text before and after the first `.` -/
+def splitAtDot (body : List Nat) : List Nat × List Nat :=
+  match body.findIdx? (· == 46) with
+  | some dot => (body.take dot, body.drop (dot + 1))
+  | none => (body, [])
+
+/-- value and precision of a literal from its digit lists: `±(int·B^fd + frac)·B^(scale − fd)` with
+    `fd = |frac|·k` base-`B` digits, precision `(|int| + |frac|)·k` -/
+def literalValue (B radix k : Nat) (neg : Bool) (di df : List Nat) (scale : Int) : FRepr × Nat :=
+  let iv := ofDigits radix di
+  let fv := ofDigits radix df
+  let fd := df.length * k
+  let mag : Nat := if fv = 0 then iv else iv * B ^ fd + fv
+  let e : Int := if fv = 0 then scale else scale - fd
+  let s : Int := if neg then -(mag : Int) else (mag : Int)
+  (FRepr.new B s e, (di.length + df.length) * k)
+
 /-- The documented grammar as a total function (independent of the code's control flow):
     `[+-] [0x] int [. frac] [marker [+-] decimal]`, `int`/`frac` unsigned digit strings with `_`
     separators, not both empty; the value is `±(int·R^|frac| + frac)·B^(scale − |frac|·k)` where `R`
     is 16 and `k = 4` for the hexadecimal form of base 2 and `R = B`, `k = 1` otherwise; the
     precision is the number of written digits (`×4` for hexadecimal). -/
 def parseFloatSpec (B : Nat) (src0 : List Nat) : Except ParseError (FRepr × Nat) :=
-  let sb : Bool × List Nat := match src0 with
-    | 45 :: r => (true, r)
-    | 43 :: r => (false, r)
-    | r => (false, r)
+  let sb := stripSignF src0
   let src := sb.2
-  let hex := B == 2 && (src.take 2 == [48, 120] || src.take 2 == [48, 88])
+  let hex := B == 2 && hasHexPrefix src
   match (match rfindIdx (isScaleMarker B hex) src with
       | some pos => (parseIsize 64 (src.drop (pos + 1))).map (fun v => (v, src.take pos))
       | none => .ok ((0 : Int), src)) with
@@ -177,34 +200,19 @@ def parseFloatSpec (B : Nat) (src0 : List Nat) : Except ParseError (FRepr × Nat
     let body := if hex then body.drop 2 else body
     let radix := if hex then 16 else B
     let k := if hex then 4 else 1
-    let parts : List Nat × List Nat := match body.findIdx? (· == 46) with
-      | some dot => (body.take dot, body.drop (dot + 1))
-      | none => (body, [])
+    let parts := splitAtDot body
     let hasDot := (body.findIdx? (· == 46)).isSome
     -- error precedence of the code: a lone "." and an empty literal have no digits
     if hasDot && body.length = 1 && !hex then .error .noDigits
     else
-      let chk (s : List Nat) (allowEmpty : Bool) : Except ParseError (List Nat) :=
-        if s = [] then (if allowEmpty then .ok [] else .error .noDigits)
-        else if s.all (· == 95) then .error .noDigits
-        else match digitsOnly radix s with
-          | some ds => .ok ds
-          | none => .error .invalidDigit
-      match chk parts.1 hasDot with
+      match chkDigits radix parts.1 hasDot with
       | .error e => .error e
       | .ok di =>
-        match chk parts.2 true with
+        match chkDigits radix parts.2 true with
         | .error e => .error e
         | .ok df =>
           if di = [] ∧ df = [] then .error .noDigits
-          else
-            let iv := ofDigits radix di
-            let fv := ofDigits radix df
-            let fd := df.length * k
-            let mag : Nat := if fv = 0 then iv else iv * B ^ fd + fv
-            let e : Int := if fv = 0 then scale else scale - fd
-            let s : Int := if sb.1 then -(mag : Int) else (mag : Int)
-            .ok (FRepr.new B s e, (di.length + df.length) * k)
+          else .ok (literalValue B radix k sb.1 di df scale)
 
 /-- text of a digit string -/
 def chars (up : Bool) (ds : List Nat) : List Nat := ds.map (digitChar up)
@@ -377,8 +385,9 @@ def ilogExact (n base : Nat) : Nat :=
       | fuel + 1 => if pow < n then go fuel (pow * base) (exp + 1) else if pow = n then exp else 0
     go 64 base 1
 
-/-- `THRESHOLD_SMALL_EXP = (Word::BITS as f32 * 0.60206) as isize` -/
-def thresholdSmallExp (W : Nat) : Int := (W * 60206 / 100000 : Nat)
+/-- `THRESHOLD_SMALL_EXP = (Word::BITS as f32 * 0.60206) as isize`: regenerated from
+    float/src/convert.rs (Tie A) -/
+def thresholdSmallExp (W : Nat) : Int := (Dashu.Gen.float_THRESHOLD_SMALL_EXP W : Nat)
 
 inductive ConvResult where
   | ok (r : Rounded FRepr)
